@@ -28,7 +28,7 @@ TOL = Fraction(1, 10 ** 9)
 
 
 def group_tasks(tier):
-    gs = list(G_.QUICK) if tier == "quick" else G_.CORE
+    gs = list(G_.CORE)
     scal = ["d"] if tier == "quick" else ["d", "f"]
     return [(g.name, s) for g in gs for s in scal]
 
